@@ -170,6 +170,7 @@ func main() {
 		tasks = append(tasks, exprTasks(r.Fork("expr"), o.Count(1500, 40000))...)
 		tasks = append(tasks, scaleTasks(r.Fork("scale"), o.Count(3000, 60000))...)
 		tasks = append(tasks, envTasks(r.Fork("env"), o.Count(6000, 150000))...)
+		tasks = append(tasks, lambdaTasks(r.Fork("lambda"), o.Count(800, 20000))...)
 	}
 
 	runTasks(tasks, nWorkers, lim, res)
@@ -182,6 +183,7 @@ func main() {
 	}
 	if o.Replay == "" {
 		writeCorrespondence(tasks, o, res)
+		writeLambdaCorrespondence(tasks, o, res)
 	}
 	res.Write(o)
 	fmt.Fprintf(os.Stderr, "c04: %d evaluations, %d distinct non-trivial, %d oracle checks, %d failure(s) recorded\n",
@@ -234,7 +236,7 @@ func runTasks(tasks []*task, nWorkers int, lim limits, res *hx.Result) {
 						cr.skipped = true
 						continue
 					}
-					req := &Req{ID: id, Kind: c.Kind, Fn: c.Fn, Args: c.Args, Tpl: c.Tpl, Args2: c.Args2, Env: c.Env, Full: t.name == "corr" || t.name == "replay" || t.name == "scale"}
+					req := &Req{ID: id, Kind: c.Kind, Fn: c.Fn, Args: c.Args, Tpl: c.Tpl, Args2: c.Args2, Env: c.Env, Full: t.name == "corr" || t.name == "replay" || t.name == "scale" || t.name == "lambda"}
 					cr.resp, cr.oc, cr.detail = rn.do(req)
 					if cr.oc == ocInternal {
 						// one retry with a fresh worker
